@@ -1332,6 +1332,13 @@ func (ce *clusterEnv) judge() {
 			out.violate(prop, "result-count", "task %d call %d: %d results for %d commands", task, rec.Index, len(res.Res), len(spec.Cmds))
 			return
 		}
+		// the redirect rules are C19's; for a member of a batch they are C20's as well ("however the batch is ... redirected")
+		chainViolate := func(rule, format string, a ...any) {
+			out.violate("C19", rule, format, a...)
+			if prop == "C20" {
+				out.violate("C20", rule, format, a...)
+			}
+		}
 		// C28 bookkeeping for the whole call: RetryDelay answers by attempt number
 		negSeen := false
 		callRetryable := true
@@ -1492,14 +1499,14 @@ func (ce *clusterEnv) judge() {
 					if b.ex.Node != a.to {
 						// a transport failure between the redirect and the re-send may legitimately change the route
 						if faultFree && !intervening(att, j) {
-							out.violate("C19", "redirect-not-followed", "task %d call %d cmd %d %q: %s answered %s %s but the next attempt went to %s (%s)", task, rec.Index, i, truncArgv(argv), a.ex.Node, a.redirect, a.to, b.ex.Node, attemptNodes(att))
+							chainViolate("redirect-not-followed", "task %d call %d cmd %d %q: %s answered %s %s but the next attempt went to %s (%s)", task, rec.Index, i, truncArgv(argv), a.ex.Node, a.redirect, a.to, b.ex.Node, attemptNodes(att))
 						}
 					} else {
 						out.judged("redirect-followed")
 					}
 					if a.redirect == "ASK" && b.ex.Node == a.to && faultFree {
 						if !precededByAsking(byConn[b.ex.Conn], connIdx[b.ex]) {
-							out.violate("C19", "ask-without-asking", "task %d call %d cmd %d %q: sent to %s after ASK without ASKING in front of it on that connection; the connection carried %s", task, rec.Index, i, truncArgv(argv), b.ex.Node, connTail(byConn[b.ex.Conn], connIdx[b.ex], 7))
+							chainViolate("ask-without-asking", "task %d call %d cmd %d %q: sent to %s after ASK without ASKING in front of it on that connection; the connection carried %s", task, rec.Index, i, truncArgv(argv), b.ex.Node, connTail(byConn[b.ex.Conn], connIdx[b.ex], 7))
 						} else {
 							out.judged("asking-precedes")
 						}
@@ -1509,7 +1516,7 @@ func (ce *clusterEnv) judge() {
 				}
 			}
 			if cl.MaxMoved > 0 && followed > cl.MaxMoved && faultFree {
-				out.violate("C19", "too-many-redirects", "task %d call %d cmd %d %q followed %d redirects with MaxMovedRedirections=%d: %s", task, rec.Index, i, truncArgv(argv), followed, cl.MaxMoved, attemptNodes(att))
+				chainViolate("too-many-redirects", "task %d call %d cmd %d %q followed %d redirects with MaxMovedRedirections=%d: %s", task, rec.Index, i, truncArgv(argv), followed, cl.MaxMoved, attemptNodes(att))
 			}
 			last := att[len(att)-1]
 			if last.redirect != "" && faultFree && !ctxEnded && r.Err == "" {
@@ -1517,7 +1524,7 @@ func (ce *clusterEnv) judge() {
 				if cl.MaxMoved == 0 || (followed < cl.MaxMoved && (spec.Kind == "do" || spec.Kind == "cache")) {
 					// (for batches the limit counts rounds of the whole call, not redirects of one command)
 					if !inTx {
-						out.violate("C19", "redirect-returned-to-caller", "task %d call %d cmd %d %q: %s %s was not followed (followed so far %d, MaxMovedRedirections=%d), result %s", task, rec.Index, i, truncArgv(argv), last.redirect, last.to, followed, cl.MaxMoved, truncStr(r.V.String(), 120))
+						chainViolate("redirect-returned-to-caller", "task %d call %d cmd %d %q: %s %s was not followed (followed so far %d, MaxMovedRedirections=%d), result %s", task, rec.Index, i, truncArgv(argv), last.redirect, last.to, followed, cl.MaxMoved, truncStr(r.V.String(), 120))
 					}
 				} else {
 					out.probe("redirect-limit-reached")
